@@ -163,9 +163,11 @@ def run (c : Case) : String :=
       let n := ((ps.headD "0").toInt?).getD 0
       let cap := ((c.getD "cap" "0").toNat?).getD 0
       -- the harness puts every item in its own array: 4 sentinel bytes, the data, `cap` spare bytes
+      let fixed := c.getD "model" "pinned" == "fixed"   -- the table row is the repaired one
       let written := items.any (fun bs =>
         let h := List.replicate 4 238 ++ bs ++ List.replicate cap 238
-        (Text.ellipsisB h ⟨4, bs.length, bs.length + cap⟩ n).1 != h)
+        let r := if fixed then Text.ellipsisBFixed h ⟨4, bs.length, bs.length + cap⟩ n else Text.ellipsisB h ⟨4, bs.length, bs.length + cap⟩ n
+        r.1 != h)
       s!"{res (runM (liftMap (fun bs => Hex.mk (Text.ellipsis bs n))) items end_)} mut={if written then 1 else 0}"
     | "sort.Sort" | "sort.SortFunc" | "sort.SortStableFunc" =>
       let lt := sortLt (ps.headD "bykey")
@@ -179,8 +181,12 @@ def run (c : Case) : String :=
     | "stdio.NewIOReader" =>
       let data := items.headD []
       let script := readScript data (parsePlan (c.getD "p" "std") data.length) (c.getD "fin" "eof")
-      let r := Reader.runIOReader script
-      s!"{res (clip (renderChunks r.delivered (termStr r.term)))} retained={clip (renderChunks r.retained none)}"
+      if c.getD "model" "pinned" == "fixed" then
+        let r := Reader.ioReaderFixed [] script
+        s!"{res (clip (renderChunks r.1 (termStr r.2)))} retained={clip (renderChunks r.1 none)}"
+      else
+        let r := Reader.runIOReader script
+        s!"{res (clip (renderChunks r.delivered (termStr r.term)))} retained={clip (renderChunks r.retained none)}"
     | _ => unmodelled
 
 end Ro.Driver.Drivers.Plugin
